@@ -41,7 +41,7 @@ def unit_vector(draw):
     return [float(t) for t in v]
 
 
-cm_value = st.one_of(st.sampled_from([1.0, -1.0, 0.5, -0.5, 2.0, -2.0, 1e-6, -1e-6, 0.1, -0.1, 1.5, -1.5, 0.01]),
+cm_value = st.one_of(st.sampled_from([1.0, -1.0, 0.5, -0.5, 2.0, -2.0, 1e-6, -1e-6, 0.1, -0.1, 1.5, -1.5, 0.01, 0.0]),
                      st.floats(1e-6, 2.0).map(lambda v: v), st.floats(1e-6, 2.0).map(lambda v: -v))
 
 
@@ -195,7 +195,7 @@ def membership_body(case):
             if centre_exact:
                 # the cap's own centre is asserted even though it sits in no band
                 for k in range(len(P)):
-                    if case['points'][k] == p['x'][i]:
+                    if case['points'][k] == p['x'][i] and p['cm'][i] != 0:      # cm = 0: the centre is the boundary itself (rounding decides)
                         v[k] = 1 if p['cm'][i] > 0 else -1
             with judge('is_in_cap'):
                 compare_bool(got, v, 'is_in_cap', lambda k: dict(x=p['x'][i], cm=p['cm'][i], point=case['points'][k], mode=case['mode']))
@@ -391,7 +391,8 @@ def format_classify(case):
 # ------------------------------------------------------------------ set_use_caps
 @st.composite
 def usecaps_case(draw):
-    p = draw(polygon(min_caps=1, max_caps=8))
+    big = draw(st.integers(0, 7)) == 0
+    p = draw(polygon(min_caps=1, max_caps=8)) if not big else draw(polygon(min_caps=33, max_caps=70))     # more caps than bits in an int32 / int64 index
     n = len(p['cm'])
     kind = draw(st.sampled_from(['subset', 'subset', 'perm', 'repeats', 'range']))
     if kind == 'range':
@@ -403,7 +404,7 @@ def usecaps_case(draw):
     else:
         idx = draw(st.lists(st.integers(0, n - 1), unique=True, max_size=n))
     return dict(poly=p, index_list=idx, add=draw(st.booleans()), allow_doubles=draw(st.sampled_from([False, False, True])),
-                allow_neg_doubles=draw(st.booleans()), as_array=draw(st.booleans()))
+                allow_neg_doubles=draw(st.booleans()), as_array=draw(st.sampled_from([False, 'i4', 'i8', 'i4'])))
 
 
 def usecaps_oracle(p, idx, add, allow_doubles, allow_neg_doubles, tol=1e-10):
@@ -438,7 +439,7 @@ def usecaps_body(case):
     from pydl.pydlutils.mangle import set_use_caps
     p = case['poly']
     poly = make_polygon(p)
-    idx = np.array(case['index_list'], dtype='i4') if case['as_array'] else list(case['index_list'])
+    idx = np.array(case['index_list'], dtype='i4' if case['as_array'] is True else case['as_array']) if case['as_array'] else list(case['index_list'])
     got = call(set_use_caps, poly, idx, add=case['add'], allow_doubles=case['allow_doubles'], allow_neg_doubles=case['allow_neg_doubles'])
     want = usecaps_oracle(p, case['index_list'], case['add'], case['allow_doubles'], case['allow_neg_doubles'])
     if want is None:
@@ -461,10 +462,34 @@ def usecaps_classify(case):
     return out
 
 
+# ------------------------------------------------------------------ windows as large as the survey's (hundreds of thousands of polygons)
+def large_cases(tier):
+    for n in ((33000,) if tier == 'quick' else (33000, 70000)):
+        for mode in ('xyz', 'radec'):
+            yield dict(n=n, mode=mode, probe=[0, 1, 32766, 32767, 32768, 32769, n - 1])
+
+
+def large_body(case):
+    from pydl.pydlutils.mangle import is_in_window, PolygonList, ManglePolygon
+    n = case['n']
+    ang = 2 * np.pi * np.arange(n) / n
+    X = np.stack([np.cos(ang) * 0.8, np.sin(ang) * 0.8, np.full(n, 0.6)], 1)      # centres 1.5e-4 rad apart on a small circle
+    objs = PolygonList([ManglePolygon(x=X[i].reshape(1, 3).copy(), cm=np.array([1e-10]), use_caps=1) for i in range(n)])    # caps of 1.4e-5 rad: disjoint
+    pts = np.vstack([X[case['probe']], [[0.0, 0.0, -1.0]]])
+    arg = to_radec(pts.tolist()) if case['mode'] == 'radec' else pts
+    inside, which = call(is_in_window, objs, arg)
+    with judge('large-window'):
+        got = [int(v) for v in which]
+        check(got == case['probe'] + [-1], 'is_in_window:large-window-wrong-index', lambda: dict(got=got, want=case['probe'] + [-1]))
+        check([bool(v) for v in inside] == [True] * len(case['probe']) + [False], 'is_in_window:large-window-flag')
+
+
 SUBCHECKS = [
     SubCheck('membership', membership_body, strategy=membership_case, classify=membership_classify, nontrivial=membership_nontrivial,
              quick=3000, thorough=150000, shards=(8, 16), floor=0.02,
              doc='is_in_cap / is_in_polygon (ncaps restriction) / is_in_window on in-memory polygons vs the cap inequality'),
+    SubCheck('large_window', large_body, kind='exhaustive', cases=large_cases, classify=lambda c: ['n:%d' % c['n'], c['mode']], nontrivial=lambda c, l: True,
+             shards=(2, 4), floor=0.0, doc='first-containing-polygon index in a window of 33000 (thorough: 70000) polygons, beyond 16-bit indices'),
     SubCheck('storage_formats', format_body, strategy=format_case, classify=format_classify,
              quick=240, thorough=8000, shards=(8, 16),
              doc='.ply, FITS (multi-cap and one-cap layout; raw and converted) and window_read balkans give the oracle answers'),
